@@ -310,7 +310,13 @@ func (s *storage) nextPack() error {
 	if err := s.openForWrite(n); err != nil {
 		return err
 	}
-	return s.openForRead(n)
+	if err := s.openForRead(n); err != nil {
+		// Don't keep writing to a pack that is not in s.fds: the
+		// roll-over is retried by the next append.
+		s.closePack()
+		return err
+	}
+	return nil
 }
 
 // openAllPacks opens read-only each pack file in s.root, populating s.fds.
@@ -684,6 +690,13 @@ func (s *storage) append(br blob.SizedRef, r io.Reader) error {
 	defer s.mu.Unlock()
 	if s.closed {
 		return errors.New("diskpacked: write to closed storage")
+	}
+	if s.writer == nil {
+		// An earlier roll-over to the next pack file failed after the
+		// full pack had been closed: retry it.
+		if err := s.nextPack(); err != nil {
+			return err
+		}
 	}
 
 	// to be able to undo the append
